@@ -30,6 +30,11 @@ import (
 
 func init() { register("C04", runC04) }
 
+type c04CfgKey struct {
+	ratio   float64
+	disable bool
+}
+
 const c04Sec = int64(time.Second)
 
 // the ratios and the factor the property names (the code's own literals reach the model
@@ -163,6 +168,7 @@ func (m *c04Mirror) reason(now int64) string {
 type c04h struct {
 	w      *emit.Writer
 	cfg    *certmagic.Config
+	cfgs   map[c04CfgKey]*certmagic.Config // one Config per (ratio, DisableARI), built by certmagic.New
 	cache  *certmagic.Cache
 	opts   certmagic.CacheOptions
 	ca     *doubles.CA
@@ -242,8 +248,18 @@ func (h *c04h) run(c c04Case, desc map[string]any) {
 	if interval <= 0 {
 		interval = int64(certmagic.DefaultRenewCheckInterval)
 	}
-	h.cfg.RenewalWindowRatio = ratio
-	h.cfg.DisableARI = c.Disable
+	// the configuration goes through the library's own constructor (certmagic.New), as an application's
+	// does: whatever New does to the configured ratio is part of the behaviour under test (the model takes
+	// the ratio AS CONFIGURED: 0 = default, (0,1] as given)
+	ck := c04CfgKey{ratio, c.Disable}
+	cfg, ok := h.cfgs[ck]
+	if !ok {
+		cfg = certmagic.New(h.cache, certmagic.Config{Storage: h.cfg.Storage, Logger: h.cfg.Logger, RenewalWindowRatio: ratio, DisableARI: c.Disable})
+		if h.cfgs == nil {
+			h.cfgs = map[c04CfgKey]*certmagic.Config{}
+		}
+		h.cfgs[ck] = cfg
+	}
 
 	var leaf *x509.Certificate
 	var res certmagic.CertificateResource
@@ -287,11 +303,11 @@ func (h *c04h) run(c c04Case, desc map[string]any) {
 		var b bool
 		switch c.Kind {
 		case 0:
-			b = certmagic.VerifCertNeedsRenewal(h.cfg, leaf, ari, false)
+			b = certmagic.VerifCertNeedsRenewal(cfg, leaf, ari, false)
 		case 1:
-			b = certmagic.VerifCertificateNeedsRenewal(h.cfg, leaf, ari)
+			b = certmagic.VerifCertificateNeedsRenewal(cfg, leaf, ari)
 		default:
-			remainingObs, _, b = certmagic.VerifManagedCertNeedsRenewal(h.cfg, res)
+			remainingObs, _, b = certmagic.VerifManagedCertNeedsRenewal(cfg, res)
 		}
 		if b {
 			obs = 1
